@@ -173,7 +173,7 @@ impl Property for C07 {
         "instruction streams obtained (1) by lowering generated structured programs and (2) as random jump graphs of 3..25 instructions (forward unconditional/conditional jumps, backward counting jumps incl. overlapping ones, shared targets, explicit jump times, interrupt labels, difficulty-tagged instructions, time increases) x 8 register valuations; decompile with blocks=false vs blocks=true (direct and, for jumps into blocks, after desugar_blocks); non-trivial = some block was recovered and the stream is a random graph or contains an explicit-time/multi-referrer/interrupt feature"
     }
     fn tape_len(&self, tier: Tier) -> usize { tier.pick(700, 1000) }
-    fn cases(&self, tier: Tier) -> u32 { tier.pick(4000, 300000) }
+    fn cases(&self, tier: Tier) -> u32 { tier.pick(150000, 3000000) }
     fn required_labels(&self, _tier: Tier) -> Vec<&'static str> { vec!["from_program", "graph", "recovered", "explicit_time", "multi_referrer", "interrupt", "backward", "needs_flatten"] }
 
     fn generate(&self, tape: &mut Tape, _tier: Tier, known: &Known) -> Value {
